@@ -14,6 +14,21 @@ def main() -> int:
     dev = selftest_wigner(4)
     from vmon.workloads import reactions
     n = reactions.verify_fixtures()
+    # the exception classifier: raised inside ampform -> observation about the SUT; raised in the harness -> inconclusive
+    from vmon.core import _raised_in_sut
+    from ampform.sympy import PoolSum
+    try:
+        PoolSum(1, ("i",))  # malformed index tuple: raises inside ampform
+        sut_where = None
+    except Exception as exc:  # noqa: BLE001
+        sut_where = _raised_in_sut(exc)
+    try:
+        {}["missing"]
+    except Exception as exc:  # noqa: BLE001
+        harness_where = _raised_in_sut(exc)
+    if sut_where is None or harness_where is not None:
+        print(f"exception classifier broken: sut={sut_where} harness={harness_where}")
+        return 1
     print(f"vmon ready: ampform from {sut.git_state()['ampform_file']}, {n} reaction fixtures load, "
           f"numeric Wigner-D vs SymPy max dev {dev:.2e}")
     return 0 if ok and dev < 1e-12 and n > 0 else 1
